@@ -399,6 +399,63 @@ func c14String(c *Ctx, k strCase) {
 	}
 }
 
+// c14AfterFailures: the flags change the representation, never the meaning - also right behind an Append that failed
+// half-way under the same flags (the encoders keep pooled scratch: sort tables, buffers): maps of every specialised
+// kind, sorted and unsorted, after failed encodes of maps of every kind
+func c14AfterFailures(c *Ctx) {
+	bad := json.RawMessage(`{"broken`)
+	failing := []any{
+		map[string]json.RawMessage{"zz": json.RawMessage(`1`), "a": bad, "m": json.RawMessage(`2`)},
+		map[string]any{"zz": 1, "b": make(chan int), "a": 2},
+		map[string]any{"zz": map[string]any{"x": func() {}, "y": 1}},
+		map[int]any{9: 1, 3: make(chan int)},
+		map[string]MVal{"zz": {1}, "a": {2}},
+		[]any{map[string]string{"zz": "1", "a": "2"}, make(chan int)},
+		struct {
+			M map[string]bool
+			C chan int
+		}{map[string]bool{"zz": true}, nil},
+	}
+	good := []any{
+		map[string]any{"a": 1, "b": "x"}, map[string]string{"b": "1", "a": "2"}, map[string]bool{"t": true, "f": false}, map[string][]string{"k": {"v"}, "a": nil},
+		map[string]json.RawMessage{"r": json.RawMessage(`[1]`), "a": json.RawMessage(`{}`)}, map[int]string{2: "b", 1: "a"}, map[string]MVal{"k": {3}},
+		map[string]any{"n": map[string]any{"y": 1, "x": map[string]string{"q": "r", "p": "s"}}},
+	}
+	for mask := 0; mask < 8; mask++ {
+		fl, _ := subsetFlags(mask)
+		for fi, f := range failing {
+			for gi, g := range good {
+				k := c14Case{Kind: "afterfailure", VI: fi*100 + gi, A: mask}
+				want, werr := genericOfValue(g)
+				var out []byte
+				var err error
+				c.Case()
+				c.Eval(1)
+				if p := protect(func() {
+					json.Append(nil, f, fl)
+					out, err = json.Append(nil, g, fl)
+				}); p != "" {
+					c.Diverge("C14", "json.Append(after an Append that failed half-way)", "no panic", p, "", k)
+					continue
+				}
+				got, gerr := genericOf(out)
+				if err != nil || werr != nil || gerr != nil || !reflect.DeepEqual(got, want) {
+					c.Diverge("C14", "json.Append(after an Append that failed half-way)", fmt.Sprintf("the value of %T", g), fmt.Sprintf("%s err=%v (flags %d, after a failed Append of %T)", clipS(string(out)), err, mask, f), "", k)
+				}
+			}
+		}
+	}
+}
+
+// genericOfValue: the generic value of what encoding/json writes for v
+func genericOfValue(v any) (any, error) {
+	b, err := stdjson.Marshal(v)
+	if err != nil {
+		return nil, err
+	}
+	return genericOf(b)
+}
+
 func c14Vector(c *Ctx, raw stdjson.RawMessage) {
 	var sv strVec
 	if stdjson.Unmarshal(raw, &sv) == nil && sv.Dir == "esc" {
@@ -474,6 +531,10 @@ func c14Replay(c *Ctx, raw stdjson.RawMessage) {
 		c14Number(c, k)
 		return
 	}
+	if k.Kind == "afterfailure" {
+		c14AfterFailures(c)
+		return
+	}
 	vals := shapeValues(k.Shape, k.Seed, jLimit)
 	if k.VI < len(vals) {
 		c14Value(c, k, vals[k.VI])
@@ -481,5 +542,5 @@ func c14Replay(c *Ctx, raw stdjson.RawMessage) {
 }
 
 func init() {
-	register("C14", &Driver{Vector: c14Vector, Replay: c14Replay})
+	register("C14", &Driver{Vector: c14Vector, Replay: c14Replay, Extra: c14AfterFailures})
 }
